@@ -50,6 +50,8 @@ def gen(rng, tier):
         # freshly built objects simulated without the state initialisation (a hand-prepared in-progress project)
         spec["cfg"]["init_state"] = False
         spec["cfg"]["init_log"] = rng.random() < 0.5
+    elif rng.random() < 0.06:
+        spec["model"]["worker_copies"] = "share_all"  # workers are shallow copies of one template object (sharing its empty lists at first)
     return spec
 
 
